@@ -111,6 +111,10 @@ func (eng *Engine) checkProperty(prop, tier string) int {
 			setupFailures = append(setupFailures, fmt.Sprintf("%s/shape:unsupported: %s", c.Func, u))
 		}
 	}
+	// C15: the code tables in the source are compared entry by entry with the committed copy of RFC 7541 Appendix B
+	if prop == "C15" || prop == "" {
+		all = append(all, eng.tableObligations(verif)...)
+	}
 	genSecs := time.Since(t0).Seconds()
 	work := eng.workDir()
 	var cache *solveCache
@@ -250,6 +254,37 @@ func (eng *Engine) checkProperty(prop, tier string) int {
 			}
 		}
 	}
+	for _, fx := range execs {
+		if fx.con != nil {
+			if fx.con.Opts["noovf"] == "true" {
+				trustedSet["signed overflow NOT checked (opt noovf): "+shortFuncName(fx.fn)] = true
+			}
+			if fx.con.Opts["noframe"] == "true" {
+				trustedSet["modifies clause NOT checked against the body (opt noframe): "+shortFuncName(fx.fn)] = true
+			}
+		}
+	}
+	for t, cl := range eng.cs.HeapInvs {
+		for _, c := range cl {
+			trustedSet["declared heap invariant (assumed for every object, established at init): "+t+" "+c.Label] = true
+		}
+	}
+	for t, cl := range eng.cs.GlobalInvs {
+		for _, c := range cl {
+			trustedSet["declared invariant of init-only package variable: "+t+" "+c.Label] = true
+		}
+	}
+	for t, cl := range eng.cs.Types {
+		for _, c := range cl {
+			trustedSet["declared type invariant assumed at map lookups: "+t+" "+c.Label] = true
+		}
+	}
+	for t := range eng.cs.Chans {
+		trustedSet["declared channel invariant assumed at receives (checked at sends under contract): "+t] = true
+	}
+	for _, t := range eng.cs.Sealed {
+		trustedSet["sealed interface (only this package's types implement it): "+t] = true
+	}
 	sort.Strings(fns)
 	var unm []string
 	for n := range notes {
@@ -359,4 +394,48 @@ type replayResult struct {
 	Observed  string            `json:"observed,omitempty"`
 	TestSrc   string            `json:"test_source,omitempty"`
 	Note      string            `json:"note,omitempty"`
+}
+
+// tableObligations checks huffmanCodes / huffmanCodeLen (read from the source text on every run) against
+// spec/rfc7541_huffman.json: 512 equalities, decided by direct comparison.
+func (eng *Engine) tableObligations(verif string) []*Obligation {
+	var out []*Obligation
+	mk := func(name, src string, ok bool, detail string) {
+		o := &Obligation{Name: "tables/" + name, Kind: "post", Func: "huffman tables", Label: name, Src: src, Solver: "direct comparison", Props: []string{"C15"}}
+		if ok {
+			o.Status = "proved"
+		} else {
+			o.Status = "refuted"
+			o.Output = detail
+		}
+		out = append(out, o)
+	}
+	b, err := os.ReadFile(filepath.Join(verif, "spec", "rfc7541_huffman.json"))
+	var ref struct {
+		Codes []int64 `json:"codes"`
+		Lens  []int64 `json:"lens"`
+	}
+	if err != nil || json.Unmarshal(b, &ref) != nil || len(ref.Codes) != 256 || len(ref.Lens) != 256 {
+		mk("rfc-copy", "spec/rfc7541_huffman.json must hold 256 codes and lengths", false, "cannot read the RFC copy")
+		return out
+	}
+	for _, t := range []struct {
+		name string
+		ref  []int64
+	}{{"huffmanCodes", ref.Codes}, {"huffmanCodeLen", ref.Lens}} {
+		gi := eng.globals[t.name]
+		if gi == nil || gi.kind != "intarray" || len(gi.table) != 256 || eng.mutableGlobals[t.name] {
+			mk(t.name, t.name+" is a constant table of 256 entries that is never written", false, "table not found, not constant, or written outside init")
+			continue
+		}
+		bad := ""
+		for i := 0; i < 256; i++ {
+			if gi.table[i] != t.ref[i] {
+				bad = fmt.Sprintf("entry %d is %d, RFC 7541 Appendix B says %d", i, gi.table[i], t.ref[i])
+				break
+			}
+		}
+		mk(t.name, "forall s < 256: "+t.name+"[s] equals the RFC 7541 Appendix B value", bad == "", bad)
+	}
+	return out
 }
